@@ -183,6 +183,37 @@ pub fn execute(case: &str) -> String {
             }
             infer_case(http, frames)
         }
+        Some("inferb") => {
+            // a response body with DATA: `inferb <http> <nev> (D <hex> | P | T <entries>)*`
+            let http: u16 = it.next().unwrap().parse().unwrap();
+            let nev: usize = it.next().unwrap().parse().unwrap();
+            let mut evs = std::collections::VecDeque::new();
+            for _ in 0..nev {
+                match it.next() {
+                    Some("D") => match it.next().and_then(unhex) {
+                        Some(b) => evs.push_back(BEv::Data(b)),
+                        None => return "bad-case".into(),
+                    },
+                    Some("P") => evs.push_back(BEv::Pending),
+                    Some("T") => match parse_entries(&mut it) {
+                        Some(h) => evs.push_back(BEv::Trailers(h)),
+                        None => return "bad-case".into(),
+                    },
+                    _ => return "bad-case".into(),
+                }
+            }
+            inferb_case(http, evs)
+        }
+        Some("rst") => {
+            // a real client (tonic Channel over hyper/h2 on a duplex pipe) against an h2 server
+            // that resets the stream: `rst <reason> <pre|mid>`
+            let r: u32 = it.next().unwrap().parse().unwrap();
+            match it.next() {
+                Some("pre") => rst_case(r, false),
+                Some("mid") => rst_case(r, true),
+                _ => "bad-case".into(),
+            }
+        }
         Some("h2") => {
             let r: u32 = it.next().unwrap().parse().unwrap();
             let e1: h2::Error = h2::Reason::from(r).into();
@@ -234,6 +265,196 @@ fn infer_case(http: u16, frames: Vec<HeaderMap>) -> String {
                 format!("err {} {}", render_status(&st), after)
             }
         }
+    })
+}
+
+enum BEv {
+    Data(Vec<u8>),
+    Pending,
+    Trailers(HeaderMap),
+}
+
+/// scripted response body: data chunks, `Pending`s (which wake the task at once) and trailers
+/// frames; after the script `None` for ever
+struct EvBody {
+    evs: std::collections::VecDeque<BEv>,
+}
+
+impl http_body::Body for EvBody {
+    type Data = Bytes;
+    type Error = Status;
+    fn poll_frame(
+        mut self: std::pin::Pin<&mut Self>,
+        cx: &mut std::task::Context<'_>,
+    ) -> std::task::Poll<Option<Result<Frame<Bytes>, Status>>> {
+        use std::task::Poll;
+        match self.evs.pop_front() {
+            None => Poll::Ready(None),
+            Some(BEv::Pending) => {
+                cx.waker().wake_by_ref();
+                Poll::Pending
+            }
+            Some(BEv::Data(b)) => Poll::Ready(Some(Ok(Frame::data(Bytes::from(b))))),
+            Some(BEv::Trailers(h)) => Poll::Ready(Some(Ok(Frame::trailers(h)))),
+        }
+    }
+}
+
+/// `message()` until the stream ends: `(m <hex>)* <end …|err …|errc …>`.  For HTTP 200 an error
+/// is rendered by its code only (`errc`): its text belongs to the framing layer (C07).
+fn inferb_case(http: u16, evs: std::collections::VecDeque<BEv>) -> String {
+    let status = match http::StatusCode::from_u16(http) {
+        Ok(s) => s,
+        Err(_) => return "bad-case".into(),
+    };
+    let bound = evs.len() + evs.iter().map(|e| if let BEv::Data(d) = e { d.len() / 5 + 1 } else { 0 }).sum::<usize>() + 4;
+    let mut s: Streaming<Vec<u8>> = Streaming::new_response(RawDecoder, EvBody { evs }, status, None, None);
+    let rt = tokio::runtime::Builder::new_current_thread().build().unwrap();
+    rt.block_on(async move {
+        let mut out: Vec<String> = Vec::new();
+        for _ in 0..bound {
+            match s.message().await {
+                Ok(Some(m)) => out.push(format!("m {}", hex(&m))),
+                Ok(None) => {
+                    out.push(match s.trailers().await {
+                        Ok(None) => "end none".to_string(),
+                        Ok(Some(t)) => format!("end some {}", render_map(&t.into_headers())),
+                        Err(e) => format!("end trailers-err {}", render_status(&e)),
+                    });
+                    return out.join(" ");
+                }
+                Err(st) => {
+                    let after = match s.trailers().await {
+                        Ok(None) => "t:none",
+                        Ok(Some(_)) => "t:some",
+                        Err(_) => "t:err",
+                    };
+                    out.push(if http == 200 { format!("errc {} {}", st.code() as i32, after) } else { format!("err {} {}", render_status(&st), after) });
+                    return out.join(" ");
+                }
+            }
+        }
+        out.push("no-end".into());
+        out.join(" ")
+    })
+}
+
+// ---- `rst`: the path a real client takes (hyper::Error{source: h2::Error} → Status::from_error)
+
+#[derive(Default, Clone)]
+struct RawCodec;
+struct RawEncoder;
+impl tonic::codec::Encoder for RawEncoder {
+    type Item = Vec<u8>;
+    type Error = Status;
+    fn encode(&mut self, item: Vec<u8>, dst: &mut tonic::codec::EncodeBuf<'_>) -> Result<(), Status> {
+        use bytes::BufMut;
+        dst.put_slice(&item);
+        Ok(())
+    }
+}
+impl tonic::codec::Codec for RawCodec {
+    type Encode = Vec<u8>;
+    type Decode = Vec<u8>;
+    type Encoder = RawEncoder;
+    type Decoder = RawDecoder;
+    fn encoder(&mut self) -> RawEncoder {
+        RawEncoder
+    }
+    fn decoder(&mut self) -> RawDecoder {
+        RawDecoder
+    }
+}
+
+const RST_MSG: [u8; 3] = [7, 8, 9];
+
+/// An h2 server answers the one call with RST_STREAM(reason): before any response headers
+/// (`mid = false`; observed: what the response future returns) or after response headers and one
+/// message, once the client has read that message (`mid = true`; observed: what
+/// `Streaming::message` returns next).  `<where> <code> <1 iff the text starts "h2 protocol error: ">`.
+fn rst_case(reason: u32, mid: bool) -> String {
+    use std::time::Duration;
+    let rt = tokio::runtime::Builder::new_current_thread().enable_all().start_paused(true).build().unwrap();
+    rt.block_on(async move {
+        let (client_io, server_io) = tokio::io::duplex(64 * 1024);
+        let (go_tx, go_rx) = tokio::sync::oneshot::channel::<()>();
+        let server = tokio::spawn(async move {
+            let mut conn = match h2::server::handshake(server_io).await {
+                Ok(c) => c,
+                Err(_) => return,
+            };
+            let mut go_rx = Some(go_rx);
+            while let Some(Ok((_req, mut respond))) = conn.accept().await {
+                let go = go_rx.take();
+                tokio::spawn(async move {
+                    let r = h2::Reason::from(reason);
+                    if !mid {
+                        respond.send_reset(r);
+                        return;
+                    }
+                    let head = http::Response::builder().status(200).header("content-type", "application/grpc").body(()).unwrap();
+                    let mut send = match respond.send_response(head, false) {
+                        Ok(s) => s,
+                        Err(_) => return,
+                    };
+                    let mut f = vec![0u8, 0, 0, 0, RST_MSG.len() as u8];
+                    f.extend_from_slice(&RST_MSG);
+                    let _ = send.send_data(Bytes::from(f), false);
+                    if let Some(go) = go {
+                        let _ = go.await;
+                    }
+                    send.send_reset(r);
+                });
+            }
+        });
+        let io = std::sync::Arc::new(std::sync::Mutex::new(Some(client_io)));
+        let connector = tower::service_fn(move |_uri: http::Uri| {
+            let io = io.lock().unwrap().take();
+            async move {
+                match io {
+                    Some(io) => Ok(hyper_util::rt::TokioIo::new(io)),
+                    None => Err(std::io::Error::new(std::io::ErrorKind::ConnectionRefused, "one connection only")),
+                }
+            }
+        });
+        let ep = tonic::transport::Endpoint::from_static("http://verif.test");
+        let channel = match tokio::time::timeout(Duration::from_secs(30), ep.connect_with_connector(connector)).await {
+            Ok(Ok(c)) => c,
+            Ok(Err(_)) => return "connect-failed".to_string(),
+            Err(_) => return "hang".to_string(),
+        };
+        let mut grpc = tonic::client::Grpc::new(channel);
+        let call = async {
+            if grpc.ready().await.is_err() {
+                return "not-ready".to_string();
+            }
+            let path = http::uri::PathAndQuery::from_static("/verif.Svc/M");
+            let tok = |w: &str, st: &Status| format!("{} {} {}", w, st.code() as i32, st.message().starts_with("h2 protocol error: ") as u8);
+            match grpc.server_streaming(tonic::Request::new(vec![1u8, 2, 3]), path, RawCodec).await {
+                Err(st) => tok("call", &st),
+                Ok(resp) => {
+                    let mut s = resp.into_inner();
+                    match s.message().await {
+                        Ok(Some(m)) if m == RST_MSG => {}
+                        Ok(Some(_)) => return "wrong-message".to_string(),
+                        Ok(None) => return "body end".to_string(),
+                        Err(st) => return tok("body-first", &st),
+                    }
+                    let _ = go_tx.send(());
+                    match s.message().await {
+                        Ok(Some(_)) => "second-message".to_string(),
+                        Ok(None) => "body end".to_string(),
+                        Err(st) => tok("body", &st),
+                    }
+                }
+            }
+        };
+        let out = match tokio::time::timeout(Duration::from_secs(60), call).await {
+            Ok(s) => s,
+            Err(_) => "hang".to_string(),
+        };
+        server.abort();
+        out
     })
 }
 
@@ -433,6 +654,92 @@ fn gen_wire_details(rng: &mut Rng) -> Vec<u8> {
     }
 }
 
+/// text of exactly `n` bytes (when `uni`, up to 3 bytes more): varied, with spaces, `%`, and —
+/// when `uni` — controls and 2-, 3- and 4-byte characters, so that most of it needs escaping and a
+/// cut anywhere is visible
+fn big_text(n: usize, uni: bool) -> String {
+    let mut s = String::with_capacity(n + 4);
+    let mut i = 0usize;
+    while s.len() < n {
+        if uni {
+            s.push_str(["é", "€", "😀", "%", "\n", "ß", " ", "\u{7f}"][i % 8]);
+        } else {
+            s.push(char::from(b'!' + ((i * 7 + i / 94) % 94) as u8));
+            if i % 61 == 60 {
+                s.push(' ');
+            }
+        }
+        i += 1;
+    }
+    s
+}
+
+/// one status through every kind that carries it: written (`enc`), written and read back (`rt`,
+/// `rth`), and read from a block a peer wrote (`dec`, escaping everything / only what it must)
+fn push_big(out: &mut Vec<String>, code: u64, msg: &str, det: &[u8], md: &[(Vec<u8>, Vec<u8>)]) {
+    out.push(format!("rt {}", status_tok(code, msg, det, md)));
+    out.push(format!("rth {}", status_tok(code, msg, det, md)));
+    out.push(format!("enc {} {}", status_tok(code, msg, det, md), entries_tok(&[kv("content-type", b"application/grpc")])));
+    for all in [true, false] {
+        let mut es: Vec<(Vec<u8>, Vec<u8>)> = md.to_vec();
+        es.push(kv("grpc-status", code.to_string().as_bytes()));
+        let wire: Vec<u8> = if all {
+            pct_all(msg.as_bytes(), false)
+        } else {
+            let mut o = Vec::new();
+            for &b in msg.as_bytes() {
+                if b == b'%' || !legal_value_byte(b) {
+                    o.extend_from_slice(&pct_all(&[b], true));
+                } else {
+                    o.push(b);
+                }
+            }
+            o
+        };
+        es.push(kv("grpc-message", &wire));
+        if !det.is_empty() {
+            use base64::Engine;
+            es.push(kv("grpc-status-details-bin", &if all { b64_unpadded(det) } else { base64::engine::general_purpose::STANDARD.encode(det).into_bytes() }));
+        }
+        out.push(format!("dec {}", entries_tok(&es)));
+    }
+}
+
+/// bodies of a response that is not a gRPC message stream (each a list of DATA chunks)
+fn body_shapes() -> Vec<Vec<Vec<u8>>> {
+    let fr = |flag: u8, p: &[u8]| {
+        let mut f = vec![flag];
+        f.extend_from_slice(&(p.len() as u32).to_be_bytes());
+        f.extend_from_slice(p);
+        f
+    };
+    vec![
+        vec![b"<html><body><h1>Service Unavailable</h1></body></html>\n".to_vec()],     // 0 HTML
+        vec![fr(0, b"unauthorized")],                                                    // 1 one well-formed frame
+        vec![fr(0, b"a"), fr(0, b""), fr(0, b"bc")],                                     // 2 three frames
+        vec![fr(0, b"truncated-payload")[..9].to_vec()],                                 // 3 truncated frame
+        vec![vec![0, 0, 0, 0, 7]],                                                       // 4 bare prefix
+        vec![vec![], vec![]],                                                            // 5 empty DATA frames
+        vec![fr(1, b"compressed?")],                                                     // 6 compressed flag, no encoding
+        vec![vec![0, 0xff, 0xff, 0xff, 0xff]],                                           // 7 over-limit length
+        vec![b"{\"error\":\"rate limited\"}".to_vec(), vec![], b"\n".to_vec()],         // 8 JSON + empty + newline
+        vec![vec![0, 0], vec![0, 0, 1], b"x".to_vec(), b"tail".to_vec()],                // 9 frame then garbage
+    ]
+}
+
+fn trailer_shapes() -> Vec<Option<Vec<(Vec<u8>, Vec<u8>)>>> {
+    vec![
+        None,
+        Some(vec![]),
+        Some(vec![kv("x-a", b"1")]),
+        Some(vec![kv("grpc-status", b"0")]),
+        Some(vec![kv("grpc-status", b"7"), kv("grpc-message", b"denied%21"), kv("x-a", b"1")]),
+        Some(vec![kv("grpc-status", b"99")]),
+        Some(vec![kv("grpc-status", b"5"), kv("grpc-message", b"%FF")]),
+        Some(vec![kv("grpc-message", b"no status here"), kv("grpc-status-details-bin", b"QUJD")]),
+    ]
+}
+
 pub fn generate(tier: &str, rng: &mut Rng) -> Vec<String> {
     let thorough = tier == "thorough";
     let mut out: Vec<String> = Vec::new();
@@ -443,6 +750,18 @@ pub fn generate(tier: &str, rng: &mut Rng) -> Vec<String> {
     out.push("h2 6".into()); // 5.3
     out.push(format!("rt {}", status_tok(3, "", b"", &[kv("grpc-status-details-bin", b"!!!")])));
     out.push(format!("rt {}", status_tok(3, "", b"", &[kv("grpc-status-details-bin", b"QUJD")])));
+
+    // F2 (review round 2): a non-200 response WITH body data — an HTML error page, a body that
+    // happens to look like a gRPC frame, a short text body
+    out.push(format!("inferb 503 1 D {}", hex(b"<html><body>503 Service Unavailable</body></html>")));
+    out.push(format!("inferb 401 1 D {}", hex(b"\0\0\0\0\x0cunauthorized")));
+    out.push(format!("inferb 429 1 D {}", hex(b"slow")));
+    out.push(format!("inferb 404 2 D {} T {}", hex(b"Not Found"), entries_tok(&[kv("x-a", b"1")])));
+    // F3: the reset table on the path a real client takes
+    out.push("rst 7 pre".into());
+    out.push("rst 11 mid".into());
+    // F5: a long message must not be cut
+    out.push(format!("rt {}", status_tok(13, &big_text(64 * 1024, false), b"", &[])));
 
     // ---- exhaustive finite tables (every run)
     // Code::from_bytes: every string of length 0, 1, 2 over all 256 bytes; length 3 over an alphabet
@@ -552,6 +871,77 @@ pub fn generate(tier: &str, rng: &mut Rng) -> Vec<String> {
     for r in (0u64..=20).chain([255, 256, 65535, 1 << 31, u32::MAX as u64]) {
         out.push(format!("h2 {}", r));
     }
+    // … and through a real client connection: RST_STREAM(reason) before the response headers and
+    // mid-body, every reason RFC 9113 defines and unknown ones
+    for r in (0u64..=14).chain([255, u32::MAX as u64]) {
+        out.push(format!("rst {} pre", r));
+        out.push(format!("rst {} mid", r));
+    }
+    // HTTP status classes × bodies WITH data × trailers
+    for http in [400u16, 401, 403, 404, 429, 502, 503, 504, 500, 302, 204, 418, 100, 599, 201, 200] {
+        for (bi, body) in body_shapes().iter().enumerate() {
+            if http == 200 && !(bi == 0 || bi == 1 || bi == 2 || bi == 5) {
+                // for HTTP 200 the body IS the message stream (C01/C06/C07): only a few shapes here
+                continue;
+            }
+            for tr in trailer_shapes() {
+                for style in 0..3u64 {
+                    let mut evs: Vec<String> = Vec::new();
+                    match style {
+                        0 => {
+                            for c in body {
+                                evs.push(format!("D {}", hex(c)));
+                            }
+                        }
+                        1 => {
+                            // every chunk cut in two, a Pending before each piece
+                            for c in body {
+                                let k = c.len() / 2;
+                                evs.push("P".into());
+                                evs.push(format!("D {}", hex(&c[..k])));
+                                evs.push("P".into());
+                                evs.push(format!("D {}", hex(&c[k..])));
+                            }
+                        }
+                        _ => {
+                            let all: Vec<u8> = body.concat();
+                            let cuts = rng.below(4) as usize;
+                            let mut pos: Vec<usize> = (0..cuts).map(|_| rng.below(all.len() as u64 + 1) as usize).collect();
+                            pos.sort();
+                            let mut prev = 0;
+                            for p in pos {
+                                evs.push(format!("D {}", hex(&all[prev..p])));
+                                if rng.chance(1, 3) {
+                                    evs.push("P".into());
+                                }
+                                prev = p;
+                            }
+                            evs.push(format!("D {}", hex(&all[prev..])));
+                        }
+                    }
+                    if let Some(t) = &tr {
+                        evs.push(format!("T {}", entries_tok(t)));
+                    }
+                    out.push(format!("inferb {} {} {}", http, evs.len(), evs.join(" ")).trim_end().to_string());
+                }
+            }
+        }
+    }
+    // sizes: long messages (ASCII / needing percent-encoding), long details, one long metadata
+    // value, through every kind that carries a status
+    let sizes: &[usize] = if thorough { &[8 * 1024, 32 * 1024 - 1, 32 * 1024 + 1, 64 * 1024, 1024 * 1024] } else { &[8 * 1024, 32 * 1024 + 1, 64 * 1024] };
+    for &n in sizes {
+        for uni in [false, true] {
+            let m = big_text(n, uni);
+            push_big(&mut out, 2 + (n % 13) as u64, &m, b"", &[]);
+        }
+    }
+    for &n in if thorough { &[64 * 1024usize, 1024 * 1024][..] } else { &[64 * 1024usize][..] } {
+        let d: Vec<u8> = (0..n).map(|i| (i * 7 + i / 251) as u8).collect();
+        push_big(&mut out, 9, "details", &d, &[]);
+        push_big(&mut out, 9, &big_text(8 * 1024, true), &d, &[kv("x-big", big_text(16 * 1024, false).as_bytes())]);
+    }
+    push_big(&mut out, 5, "m", b"", &[kv("x-a", b"1"), kv("x-big", big_text(16 * 1024, false).as_bytes()), kv("x-big-bin", &b64_unpadded(&vec![0xa5u8; 12 * 1024]))]);
 
     // ---- structured: statuses
     let n = if thorough { 200000 } else { 4000 };
@@ -614,6 +1004,65 @@ pub fn generate(tier: &str, rng: &mut Rng) -> Vec<String> {
             s.push_str(&entries_tok(&es));
         }
         out.push(s);
+    }
+    // … and with DATA in the body
+    let n = if thorough { 40000 } else { 1500 };
+    for _ in 0..n {
+        let http = match rng.below(8) {
+            0 => 200,
+            1 | 2 | 3 => *rng.pick(&[400u64, 401, 403, 404, 429, 500, 502, 503, 504]),
+            _ => rng.range(100, 599),
+        };
+        let mut evs: Vec<String> = Vec::new();
+        let k = rng.range(0, 5);
+        for _ in 0..k {
+            match rng.below(8) {
+                0 => evs.push("P".into()),
+                1 => evs.push("D x".into()),
+                2 => {
+                    let shapes = body_shapes();
+                    for c in rng.pick(&shapes) {
+                        evs.push(format!("D {}", hex(c)));
+                    }
+                }
+                3 | 4 => {
+                    let l = rng.range(0, 12) as usize;
+                    let mut f = vec![*rng.pick(&[0u8, 0, 0, 1, 2]), 0, 0, 0, l as u8];
+                    let have = if rng.chance(3, 4) { l } else { rng.below(l as u64 + 1) as usize };
+                    f.extend(rng.bytes(have));
+                    let cut = rng.below(f.len() as u64 + 1) as usize;
+                    if rng.chance(1, 2) {
+                        evs.push(format!("D {}", hex(&f)));
+                    } else {
+                        evs.push(format!("D {}", hex(&f[..cut])));
+                        evs.push(format!("D {}", hex(&f[cut..])));
+                    }
+                }
+                _ => {
+                    let l = rng.range(1, 30) as usize;
+                    evs.push(format!("D {}", hex(&rng.bytes(l))));
+                }
+            }
+        }
+        if rng.chance(1, 2) {
+            let mut es = gen_entries(rng, 3);
+            if rng.chance(1, 2) {
+                es.push(kv("grpc-status", &gen_code_value(rng)));
+            }
+            if rng.chance(1, 3) {
+                es.push(kv("grpc-message", &gen_wire_message(rng)));
+            }
+            if rng.chance(1, 5) {
+                es.push(kv("grpc-status-details-bin", &gen_wire_details(rng)));
+            }
+            evs.push(format!("T {}", entries_tok(&es)));
+            if rng.chance(1, 6) {
+                // whatever follows the first trailers frame is never read
+                evs.push(format!("D {}", hex(b"late")));
+                evs.push(format!("T {}", entries_tok(&[kv("grpc-status", b"3")])));
+            }
+        }
+        out.push(format!("inferb {} {} {}", http, evs.len(), evs.join(" ")).trim_end().to_string());
     }
     out
 }
